@@ -264,8 +264,13 @@ def run(ctx):
         if c2 is not None:
             ctx.guard(check_two_level, c2)
     alphabet = "ABCDEFGHIJKLMNOPQRSTUVWXYZabcdefghijklmnopqrstuvwxyz0123456789_"
+    many_done = 0
     for enz in asm.pick_enzymes(rng, ctx.budget(250, 10000)):
         g = asm.gen_wellformed(rng, enz, rng.randint(1, 5))
+        if many_done < (1 if ctx.tier == "quick" else 4) and abs(enz.ovhg) >= 4:
+            g2 = asm.gen_wellformed(rng, enz, nmods=rng.randint(18, 24))       # a whole parts list in one call
+            if g2 is not None:
+                g, many_done = g2, many_done + 1
         if g is None:
             continue
         case, info = g
